@@ -972,3 +972,35 @@ CASES += [
  dict(id='vars-field-from-parse-tree', kind='fire', file=P, patch='../../seeded/C09-r10b/patch.diff', expect={'C09': 'full variable list'}, control=False),
  dict(id='set-contains-scratch-environment', kind='fire', file=S, patch='../../seeded/C13-r10b/patch.diff', expect={'C13': 'E10', 'C19': 'E10'}, control=False),
 ]
+
+# one-token slips found by the mutation campaign (DESIGN.md 11.7d): each was missed by every check when first seen
+CASES += [
+ dict(id='mut-queens-writer-choice-inverted', kind='fire', file=Q, old='let mut writer = if args.output.is_some() {', new='let mut writer = if args.output.is_none() {', expect={'C15': 'output destination'}, control=False),
+ dict(id='mut-clique-reader-choice-inverted', kind='fire', file=C, old='let reader = if args.input.is_some() {', new='let reader = if args.input.is_none() {', expect={'C16': 'input source'}, control=False),
+ dict(id='mut-colour-pairs-tail-starts-late', kind='fire', file=G, old='''    for (i, v1) in vertices.iter().enumerate() {
+        if let Some(vertices) = vertices.get((i + 1)..) {
+            for v2 in vertices.iter() {
+                let c1''', new='''    for (i, v1) in vertices.iter().enumerate() {
+        if let Some(vertices) = vertices.get((i + 2)..) {
+            for v2 in vertices.iter() {
+                let c1''', expect={'C18': 'pairs of product vertices'}, control=False),
+ dict(id='mut-graph-vertices-from-one', kind='fire', file=G, old='let vertices = (0..num_vertices)', new='let vertices = (1..num_vertices)', expect={'C18': 'number of vertices'}, control=False),
+ dict(id='mut-tte-variants-list-misses-true', kind='fire', file='src/truth_table.rs', old='&[Self::True, Self::False, Self::Any]', new='&[Self::False, Self::False, Self::Any]', expect={'C10': 'list of variants'}, control=False),
+ dict(id='mut-parse-tree-edge-target-not-child', kind='fire', file=PIO, old='.position(|n| n == subtree)', new='.position(|n| n != subtree)', expect={'C14': 'target of an edge'}, control=False),
+ dict(id='mut-dot-nodes-one-child-twice', kind='fire', file=IO, old='let l_nodes = self.nodes_recursive(l.clone());', new='let l_nodes = self.nodes_recursive(r.clone());', expect={'C14': 'both children'}, control=False),
+ dict(id='mut-dot-edges-one-child-twice', kind='fire', file=IO, old='let l_edges = self.edges_recursive(l.clone());', new='let l_edges = self.edges_recursive(r.clone());', expect={'C14': 'both children'}, control=False),
+ dict(id='mut-clique-constraint-same-end-twice', kind='fire', file=C, old='writeln!(writer, "-({} & {}) &", complement.0, complement.1)?;', new='writeln!(writer, "-({} & {}) &", complement.0, complement.0)?;', expect={'C16': 'ends of a pair'}, control=False),
+ dict(id='mut-printers-start-from-true', kind='fire', file=M, old='''            input_parsed
+                .free_vars
+                .iter()
+                .map(|_| TruthTableEntry::Any)
+                .collect(),
+            args.filter,''', new='''            input_parsed
+                .free_vars
+                .iter()
+                .map(|_| TruthTableEntry::True)
+                .collect(),
+            args.filter,''', expect={'C10': 'initial assignment'}, control=False),
+ dict(id='mut-clique-csv-with-header', kind='fire', file=C, old='.has_headers(false)', new='.has_headers(true)', expect={'C16': 'first line of the input'}, control=False),
+ dict(id='mut-convert-width-check-inverted', kind='fire', file=G, old='assert!(edge.len() == 2);', new='assert!(edge.len() != 2);', expect={'C18': 'width of a record'}, control=False),
+]
